@@ -169,8 +169,21 @@ void h_setSlot(void)           /* setSlot(i, v) against its contract (contracts/
     static struct c19_deep d0, d1;
     begin();
     c19_deep_snap(&d0);
-    V_COVER(in_range(IN.slot) && c19_expected_msgs(IN.slot) == PS && IN.has_backend);
-    C19_SPLIT1C(IN.slot, AutomationMgr_setSlot(&M, I, v_bits_f(IN.f)));
+#ifdef FIXED_SLOT
+    V_COVER(IN.slot == FIXED_SLOT && c19_expected_msgs(FIXED_SLOT) == PS && IN.has_backend);
+#endif
+#ifdef FIXED_SLOT               /* one obligation per in-range slot index (constant: cheap symbolic execution) */
+    V_ASSUME(IN.slot == FIXED_SLOT);
+    AutomationMgr_setSlot(&M, FIXED_SLOT, v_bits_f(IN.f));
+#else                           /* out-of-range representatives */
+    switch(IN.slot) {
+    case -1: AutomationMgr_setSlot(&M, -1, v_bits_f(IN.f)); break;
+    case NS: AutomationMgr_setSlot(&M, NS, v_bits_f(IN.f)); break;
+    case INT_MIN: AutomationMgr_setSlot(&M, INT_MIN, v_bits_f(IN.f)); break;
+    case INT_MAX: AutomationMgr_setSlot(&M, INT_MAX, v_bits_f(IN.f)); break;
+    default: V_ASSUME(0);
+    }
+#endif
     c19_deep_snap(&d1);
     frame_common();
     c19_check_setSlot_contract(&d0, &d1, IN.slot, IN.f);
